@@ -22,6 +22,7 @@ import GE.Model.BindingMap
 import GE.Model.CssIO
 import GE.Model.TagSemJson
 import GE.Model.TagTree
+import GE.Model.TagLeaves
 import GE.Model.Link
 import GE.Model.ChildArgs
 import GE.JsWriterTrace
@@ -425,6 +426,16 @@ def step (fs : List String) : String :=
       | some f =>
         let a := GE.TagTree.parse f
         esc (GE.TagTree.AS.show a) ++ "\t" ++ esc (GE.TagTree.XS.show (GE.TagTree.print a))
+      | none => "bad-tree"
+    | _ => "bad-sexp"
+  | ["tagleaves", xsx] =>
+    -- the leaf elements (<include> / <template is>) of the source tags and of the tree the parser model builds; whether every wx:if group is well-formed
+    match parseSExp xsx with
+    | some (.list (.atom "tags" :: xs)) =>
+      match xsOfSExps xs with
+      | some f =>
+        toString (GE.TagTree.groupsOk f) ++ "\t" ++ esc ("\x1f".intercalate (GE.TagTree.leavesAS (GE.TagTree.parse f))) ++ "\t" ++
+          esc ("\x1f".intercalate (GE.TagTree.leavesXS f))
       | none => "bad-tree"
     | _ => "bad-sexp"
   | ["mix_print", pieces] =>
